@@ -316,6 +316,15 @@ class _RegionAlg:
                     d = max(ds, key=lambda y: y.lineno)
                     if isinstance(d.targets[0], ast.Name) and alg.arith(d.value) and not any(isinstance(y, ast.Name) and y.id == n.id for y in ast.walk(d.value)):
                         return alg.expand(alg.copy.deepcopy(d.value), d.lineno, depth + 1)
+                    # `start = 0 if offset is None else offset`: the defaulted parameter under another name (what
+                    # `if offset is None: offset = 0` writes without one)
+                    v = d.value
+                    if isinstance(d.targets[0], ast.Name) and len(ds) == 1 and isinstance(v, ast.IfExp) and isinstance(v.test, ast.Compare) and len(v.test.ops) == 1 \
+                            and isinstance(v.test.left, ast.Name) and isinstance(v.test.comparators[0], ast.Constant) and v.test.comparators[0].value is None:
+                        p_ = v.test.left.id
+                        none_branch, other = (v.body, v.orelse) if isinstance(v.test.ops[0], ast.Is) else (v.orelse, v.body)
+                        if isinstance(other, ast.Name) and other.id == p_ and isinstance(none_branch, ast.Constant) and p_ in alg.fparams:
+                            return ast.copy_location(ast.Name(id=p_, ctx=ast.Load()), n)
                 return n
         return Sub().visit(self.copy.deepcopy(e))
 
